@@ -179,7 +179,10 @@ class StmtMixin:
             return
         ft = self.field_type(cname, name)
         if ft is None:
-            raise Unsupported(f'store to {cname}.{name} (no sidecar field type)')
+            if cname not in self.prog.classes:
+                raise Unsupported(f'store to {cname}.{name} (no sidecar field type)')
+            self.reg.fields[(cname, name)] = 'any'       # undeclared attribute: an opaque field
+            self.reg.auto_fields.add(name)
         self.write_field(obj, name, v)
 
     def setitem(self, obj, idx, v):
